@@ -112,16 +112,17 @@ ack_add!(ack_add_n2, 2);
 ack_add!(ack_add_n3, 3);
 
 /// the 64-range cap (C13: an ack packet must fit; C16: "the newest 64 ranges"): from a full list of 64
-/// single-element ranges, recording a further sequence below / between / inside / above the list keeps
+/// single-element ranges, recording a further sequence below the list / between its first two ranges keeps
 /// the list at <= 64 ranges and never forgets the newest range.  (All values concrete: inserting into a
 /// 64-element Vec at a symbolic position exceeds 16 GB; the symbolic-position semantics is ack_add_n*.)
 #[kani::proof]
 #[kani::unwind(70)]
 fn ack_cap_64() {
-    let seqs: [u64; 5] = [990, 1005, 1315, 1630, 1700];
+    let seqs: [u64; 2] = [990, 1005];
     let mut k = 0;
-    while k < 5 {
+    while k < 2 {
         let mut c = bare_client();
+        c.pending_acks = Vec::with_capacity(66);
         let mut i = 0u64;
         while i < 64 {
             c.pending_acks.push((1000 + 10 * i)..(1000 + 10 * i + 1));
